@@ -348,3 +348,53 @@ def dt_oracle(ctx, clause, f, rng, dt, same, inputs):
         ctx.oracle(clause, ok, {**inputs, 'dt': float(dt), 'dt_held_by': label},
                    detail=None if ok else {'dt_object_unchanged': bool(unchanged), 'dt_object_now': np.asarray(obj).tolist(), 'first_call': r1[0] if r1[0] != 'ok' else 'result',
                                            'second_call_same': r1[0] == r2[0] and (r1[0] != 'ok' or same(r1[1], r2[1]))})
+
+
+# ---- source hints (DESIGN §11.6, lesson 19): the numeric literals the CURRENT source has and the pinned source has not (ctx.hints, core.Hints)
+# steer the generators -- sizes around every new integer constant, parameter values around every new float constant.  Both helpers return []
+# on the unchanged tree (no hints), so the property modules behave exactly as before there.
+
+def hint_sizes(ctx, lo=2, hi=2 ** 22, cap=6, halves=False):
+    """lengths / counts around every new integer constant v inside [lo, hi]: v+1, v, v+2, 2v+1, v-1 (halves=True: also 2v+2, 2v+3, so that
+    n // 2 straddles v), 'just above' first and round-robin over the constants (largest first), so that a cap never drops the size just above
+    any constant before the less telling neighbours of another one."""
+    h = getattr(ctx, 'hints', None)
+    if not h:
+        return []
+    consts = sorted(h.ints(2, hi), reverse=True)
+    offs = [lambda v: v + 1, lambda v: v, lambda v: v + 2, lambda v: 2 * v + 1, lambda v: v - 1]
+    if halves:
+        offs = [lambda v: v + 1, lambda v: 2 * v + 2, lambda v: v, lambda v: 2 * v + 3, lambda v: 2 * v + 1, lambda v: v + 2, lambda v: 2 * v, lambda v: v - 1]
+    out = []
+    for f in offs:
+        for v in consts:
+            c = f(v)
+            if lo <= c <= hi and c not in out:
+                out.append(c)
+    return out[:cap]
+
+
+def hint_values(ctx, lo, hi, cap=12, maps=(lambda c: c,)):
+    """values of a continuous parameter at / around every new numeric constant c (ctx.hints.near_values: c, 0.999c, 1.001c, 0.5c, 2c, 0.9c, 1.1c),
+    kept when inside the property's domain [lo, hi] for that parameter.  maps: how the parameter follows from the constant when the constant
+    bounds a DERIVED quantity (e.g. the parameter is T/dt and the constant bounds w*dt: lambda c: 2*pi/c).  Round-robin: the exact constant and its
+    closest neighbours of every constant come before the wider neighbours of any."""
+    h = getattr(ctx, 'hints', None)
+    if not h:
+        return []
+    near = h.near_values(cap=10 ** 6)
+    groups = [near[i:i + 7] for i in range(0, len(near), 7)]
+    out = []
+    for k in range(7):
+        for g in groups:
+            if k >= len(g):
+                continue
+            for f in maps:
+                for x in (g[k], -g[k]):
+                    try:
+                        y = float(f(x))
+                    except (ZeroDivisionError, OverflowError, ValueError):
+                        continue
+                    if y == y and lo <= y <= hi and y not in out:
+                        out.append(y)
+    return out[:cap]
